@@ -130,7 +130,7 @@ def _intercept(conn, kind, sql=None, params=None, many=False, cursor=None):
             c.foreign_pid_use.append({'g': g, 'conn': conn.cid, 'conn_pid': 'parent', 'kind': kind,
                                       'sql': ev.get('sql')})
             ev['foreign_pid'] = True
-        if conn.closed and kind != 'close':
+        if conn.closed and kind != 'close':    # closed by Pony (a lost connection is not 'closed')
             c.closed_use.append({'g': g, 'conn': conn.cid, 'kind': kind, 'sql': ev.get('sql')})
     if c.snapshot is not None:
         c.snapshot(g, ev)
@@ -143,6 +143,12 @@ def _intercept(conn, kind, sql=None, params=None, many=False, cursor=None):
             fk = c.gfaults.pop(g, None)
     if fk is not None and c.fault_filter is not None:
         fk = c.fault_filter(ev, fk)
+    if fk is None and conn is not None and conn.lost and kind != 'close':
+        # every further use of a lost connection fails the same way (not counted as an injected fault)
+        ev['lost_conn'] = True
+        exc = make_fault_exc('connlost')
+        _after(ev, exc)
+        raise exc
     if fk is not None:
         ev['fault'] = fk
         c.fired.append([g, thread, k, kind, fk])
@@ -173,7 +179,12 @@ def _apply_fault_side_effect(conn, kind, fk, cursor=None):
         conn._do_close()
         return
     if fk == 'connlost':
-        conn._do_close()
+        # the server side is gone; the client (Pony) does not know and still has to close its handle
+        conn.__dict__['lost'] = True
+        try:
+            real.close()
+        except Exception:
+            pass
         return
     if fk in ('ioerr_rb',) or (kind == 'commit' and fk in ('ioerr', 'full')):
         # SQLite rolls the transaction back automatically on these errors
@@ -192,7 +203,7 @@ def _after(ev, exc=None):
         conn = c.conns[ev['c']]
     if conn is not None:
         # transaction state of the real connection after the call (models follow this, not Pony's flags)
-        if conn.closed:
+        if conn.closed or conn.lost:
             ev['tx_after'] = False
         else:
             try:
@@ -282,6 +293,7 @@ class ProxyConnection(object):
         d['pid'] = os.getpid()
         d['thread'] = thread
         d['closed'] = False
+        d['lost'] = False
         d['close_calls'] = 0
 
     def _do_close(self):
